@@ -13,7 +13,7 @@ def run(tier, seed, verdict):
     # an id-keeping duplicate inside the block (two entities, one id), then - among all single calls - the fresh-id
     # copy of the whole block
     runs.append(mr.ModelRun("MC_C20_dupid.cfg", seed + 3, probes=("reopen", "lookups"), name_pools=[0, 1], stride=1,
-                            accept=lambda tx: len(tx["hist"]) >= 18 and tx["act"]["name"] in ("Copy", "SetAttr", "WriteData")))
+                            accept=lambda tx: len(tx["hist"]) >= 20 and tx["act"]["name"] in ("Copy", "SetAttr", "WriteData")))
     if not quick:
         runs.append(mr.ModelRun("MC_C20_keep.cfg", seed + 2, probes=("reopen", "xcopy"), name_pools=[0, 1], stride=1))
     return run_property(
@@ -35,7 +35,8 @@ def run(tier, seed, verdict):
                      "only as part of its block",
                      "id-keeping copies inside one file are explored only in the thorough tier without deletes: two entities "
                      "with one id in one file are a recorded design-level finding (delete goes by id)",
-                     "data frames are not part of the entity-graph model (their copy path is the same _copy_objects routine)"])
+                     "cell contents of copied data frames: the cross-file / same-file copy probe compares them (xcopy); the "
+                     "entity model carries a frame's identity, attributes and links"])
 
 
 def replay(path):
